@@ -60,11 +60,24 @@ def call(eng, st, f, args, kwargs):
     if f is isinstance:
         x, cls = args
         return py_isinstance(st, x, cls)
+    if f is type and len(args) == 1:
+        o = args[0]
+        if isinstance(o, Ref) and isinstance(st.obj(o), HObject) and getattr(st.obj(o), "pycls", None) not in (None, object):
+            return st.obj(o).pycls  # the real class object of the tree under verification
+        raise EngineUnsupported(f"type() of {o!r}")
     if f is getattr:
         o, name = args[0], args[1]
         default = args[2] if len(args) > 2 else _NODEFAULT
         if isinstance(o, Ref) and isinstance(st.obj(o), HObject):
             return _AsOutcomes(eng.obj_getattr(st, o, st.obj(o), name, default))
+        if isinstance(o, type) and getattr(o, "__module__", "").startswith("pyrtcm") and isinstance(norm(name), str):
+            # class-level lookup on a real class of the tree: only descriptors / functions / absence are passed on (no data)
+            v = getattr(o, norm(name), default)
+            if v is _NODEFAULT:
+                return Cases([(True, RaiseExc(AttributeError, norm(name)))])
+            if v is default or isinstance(v, property) or callable(v):
+                return v
+            raise EngineUnsupported(f"class attribute {o.__name__}.{norm(name)} holding data")
         raise EngineUnsupported(f"getattr on {o!r}")
     if f is hasattr:
         o, name = args
@@ -115,6 +128,8 @@ def call(eng, st, f, args, kwargs):
         (x,) = args
         if isinstance(x, SBytes):
             return norm(SBytes(x.segs, mutable=False))
+        if _has_sym(x):
+            raise EngineUnsupported("bytes() of a container holding symbolic values")
         return bytes(x)
     if f is bytearray:
         if not args:
@@ -124,12 +139,22 @@ def call(eng, st, f, args, kwargs):
         raise EngineUnsupported("enumerate")
     if isinstance(f, type) and issubclass(f, BaseException):
         return ExcValue(f, args[0] if args else None)
-    if callable(f) and all(not isinstance(a, (Sym, Ref)) for a in args) and getattr(f, "__module__", "") in ("builtins",):
+    if callable(f) and not any(_has_sym(a) for a in args) and not any(_has_sym(a) for a in kwargs.values()) and getattr(f, "__module__", "") in ("builtins",):
         try:
             return f(*args, **kwargs)
         except Exception as e:  # noqa
             return Cases([(True, RaiseExc(type(e), str(e)))])
     raise EngineUnsupported(f"call of {f!r}")
+
+
+def _has_sym(x):
+    if isinstance(x, (Sym, Ref)):
+        return True
+    if isinstance(x, (tuple, list, set, frozenset)):
+        return any(_has_sym(y) for y in x)
+    if isinstance(x, dict):
+        return any(_has_sym(k) or _has_sym(v) for k, v in x.items())
+    return False
 
 
 class _HasNot:
